@@ -23,11 +23,13 @@ from common import C, Nat, Raw, to_coq
 import lib
 import gen_asn1 as G
 import codec_oer as O
+import c06_serial as SR
 
 import asn1tools
 from asn1tools.codecs import OutOfDataError
 
 PID = 'C06'
+IMPORTS = O.COQ_IMPORTS + ['Oer.OerSerial']
 
 
 def coq_bytes(b):
@@ -155,7 +157,9 @@ class Cases(object):
         self.dec = []
 
     def add_env(self, mod, numeric):
-        self.envs.append(to_coq(coq_env(mod, numeric)))
+        # the serial-constraint layer (c06_serial.py) hands over a Coq expression: the environment is computed
+        # inside Coq by Oer/OerSerial.v's elab_env from the surface module
+        self.envs.append(mod['coq_env'] if 'coq_env' in mod else to_coq(coq_env(mod, numeric)))
         return len(self.envs) - 1
 
 
@@ -256,7 +260,7 @@ def collect_module(ctx, cs, mod, text, gen_value, nvals, numeric, origin, ntrunc
     spec = r[1]
     ei = None
     # the same module one version earlier (C07's forward direction, as correspondence + "must decode")
-    mod1 = older_version(rng, mod)
+    mod1 = older_version(rng, mod) if not mod.get('no_older') else None
     spec1 = ei1 = None
     if mod1 is not None:
         text1 = G.render_module(mod1, G.make_resolver(mod1))
@@ -265,6 +269,8 @@ def collect_module(ctx, cs, mod, text, gen_value, nvals, numeric, origin, ntrunc
             spec1 = r1[1]
             rt1 = G.make_resolver(mod1)
     for name, t in mod['types']:
+        if name in mod.get('hidden', ()):       # anonymous constrained-reference sites: not types of the module text
+            continue
         why = O.why_out_of_scope(mod, t)
         if why:
             ctx.count('skip:' + why)
@@ -605,7 +611,7 @@ def explain(ctx, cs, kind, c):
     body = 'Definition e%d : env := %s.\nEval vm_compute in %s %d%%nat (%s, e%d, %s, %s).\n' % (
         ei, cs.envs[ei], fn, O.FUEL, to_coq(bool(numeric)), ei, tyc, argc)
     try:
-        (r,) = ctx.coq_eval('explain', O.COQ_IMPORTS, body, timeout=300)
+        (r,) = ctx.coq_eval('explain', IMPORTS, body, timeout=300)
         return repr(r)
     except Exception as e:  # noqa
         return 'model evaluation failed: %s' % (str(e)[-300:],)
@@ -647,14 +653,14 @@ def run_coq(ctx, cs):
     if size:
         jobs.append((len(jobs), cur['enc'], cur['spec'], cur['dec']))
     nsh = len(jobs)
-    ctx.coq_eval('warm', O.COQ_IMPORTS, 'Eval vm_compute in 0.\n')       # builds the model once (if Props did not), serially
+    ctx.coq_eval('warm', IMPORTS, 'Eval vm_compute in 0.\n')       # builds the model once (if Props did not), serially
 
     def work(job):
         i, enc, spec, dec = job
         t0 = time.time()
         body = shard_body(cs, enc, spec, dec)
         t1 = time.time()
-        r = ctx.coq_eval('shard%d' % i, O.COQ_IMPORTS, body, timeout=1500)
+        r = ctx.coq_eval('shard%d' % i, IMPORTS, body, timeout=1500)
         times.append((i, round(t1 - t0, 1), round(time.time() - t1, 1), len(body)))
         return job, r
     times = []
@@ -891,7 +897,10 @@ def run(ctx):
         return replay(ctx)
     ctx.rule = ('cases: (module, type, value, numeric_enums) from the shared grammar-directed generator plus a boundary layer '
                 '(INTEGER bounds/values at every fixed-width threshold, ENUMERATED values <0/127/128/>32767, lengths '
-                '0/1/127/128/255/256/65535/65536, 1..17 additions, 6..16 optionals, CHOICE tags up to 2^32); each case: '
+                '0/1/127/128/255/256/65535/65536, 1..17 additions, 6..16 optionals, CHOICE tags up to 2^32) plus the '
+                'serial-constraint layer (constraints written on references to constrained INTEGER / sized types at '
+                'type-assignment, component, element and alternative sites, up to 3 deep, extensible or not, MIN/MAX; '
+                'effective constraints computed by Oer/OerSerial.v inside Coq); each case: '
                 'encode, X.696 model, decode(+tail), every/sampled strict prefix, mutated octets; distinct by (origin, type '
                 'shape, value class, numeric); non-trivial = type AST size >= 3 or boundary layer')
     ctx.level = 'proof'
@@ -908,9 +917,15 @@ def run(ctx):
         'theorems quantify over the universe of Syntax/Asn1.v restricted by the decidable regions oer_ok / in_scope; '
         'REAL, time types, ANY, EXTERNAL and parameterisation are outside the universe',
     ]
-    ok = ctx.coq_props(extra_targets=['theories/Oer/OerCorr.vo', 'theories/Oer/X696Vectors.vo'])
+    # helper layer regenerated from the source (translator/pyfun.py) BEFORE the theorems are checked against it
+    import pyfun_tie
+    _tie = pyfun_tie.run_tie(ctx, budget=400)
+    ok = ctx.coq_props(extra_targets=['theories/Oer/OerCorr.vo', 'theories/Oer/X696Vectors.vo', 'theories/Oer/OerSerial.vo'])
+    pyfun_tie.report(ctx, _tie, functions=['encode_tag'])
+
+    ok = audit_serial(ctx) and ok
     if ok:      # everything the case files import has just been built: do not take the build lock again
-        ctx._built.add(tuple(sorted('theories/%s.vo' % i.replace('.', '/') for i in O.COQ_IMPORTS)))
+        ctx._built.add(tuple(sorted('theories/%s.vo' % i.replace('.', '/') for i in IMPORTS)))
     ctx.log('props built and audited')
     replay_findings(ctx)
     cs = Cases()
@@ -921,6 +936,10 @@ def run(ctx):
         for numeric in ((False, True) if mod['name'] == 'BE' else (False,)):
             collect_module(ctx, cs, mod, text, None, 0, numeric, 'boundary', ntrunc=3 if quick else 6, nmal=1, values=vals)
     ctx.log('boundary layer done: %d evaluations' % ctx.evaluations)
+    # constraints applied serially at reference sites: the effective constraints are computed in Coq (Oer/OerSerial.v)
+    for mod, text, vals in SR.serial_modules(ctx, quick):
+        collect_module(ctx, cs, mod, text, None, 0, False, 'serial', ntrunc=2 if quick else 6, nmal=0 if quick else 1, values=vals)
+    ctx.log('serial-constraint layer done: %d evaluations' % ctx.evaluations)
     nmods = 45 if quick else 2500
     for i in range(nmods):
         opts = G.Opts(max_depth=rng.choice([2, 3]), n_types=rng.choice([2, 4]))   # 64K lengths: boundary layer
@@ -936,6 +955,42 @@ def run(ctx):
     ctx.extra['conforming_region'] = O.__doc__.split('Region predicates', 1)[1]
     if not ok:
         common.proof_broken(ctx)
+
+
+SERIAL_THEOREMS = ['eff_int_extensible_ignored', 'eff_size_extensible_ignored', 'istep_visible_intersects',
+                   'istep_root_intersects', 'ichain_root_in_vis', 'istep_narrowing', 'istep_vis_shrinks',
+                   'zstep_visible_intersects', 'zstep_fixed', 'apply_chain_extensible_int', 'apply_chain_extensible_octets']
+
+
+def audit_serial(ctx):
+    """Oer/OerSerial.v is not imported by Props/C06.v (a shared file): its theorems are audited here the same way —
+    no forbidden vernacular in the file, every theorem closed under the global context."""
+    import re
+    path = os.path.join(common.COQ, 'theories', 'Oer', 'OerSerial.v')
+    txt = re.sub(r'\(\*.*?\*\)', '', open(path).read(), flags=re.S)
+    bad = [m.group(1) for m in common.FORBIDDEN.finditer(txt)]
+    ctx.obligation('gate:OerSerial.v', not bad, '; '.join(bad[:5]))
+    allok = not bad
+    body = ''.join('Print Assumptions %s.\n' % t for t in SERIAL_THEOREMS)
+    d = os.path.join(common.COQ, 'cases')
+    os.makedirs(d, exist_ok=True)
+    f = os.path.join(d, 'C06_serial_audit.v')
+    with open(f, 'w') as fh:
+        fh.write('From Asn1V Require Import Oer.OerSerial.\n' + body)
+    rc, out = common.sh(['coqc'] + common.COQ_FLAGS + ['-Q', 'cases', 'Asn1Cases', 'cases/C06_serial_audit.v'],
+                        cwd=common.COQ, timeout=600)
+    for ext in ('.v', '.vo', '.glob', '.vok', '.vos'):
+        for q in (f[:-2] + ext, os.path.join(d, '.C06_serial_audit.aux')):
+            try:
+                os.remove(q)
+            except OSError:
+                pass
+    closed = out.count('Closed under the global context')
+    for i, t in enumerate(SERIAL_THEOREMS):
+        good = rc == 0 and closed == len(SERIAL_THEOREMS)
+        ctx.obligation('OerSerial.' + t, good, 'closed' if good else out[-300:])
+        allok = allok and good
+    return allok
 
 
 def open_theorems():
